@@ -217,12 +217,12 @@ fn c23_field_argument_len0() { check_field_argument::<0>(); }
 #[kani::unwind(4)]
 fn c23_field_argument_len1() { check_field_argument::<1>(); }
 
-// @verif prop=C23 class=bounded tier=quick bound="all strings of length 2 over the 11-byte class alphabet {a Z 7 _ . ( ) : @ - SP}" targets="FieldArgumentCoordinate::from_str" timeout=600
+// @verif prop=C23 class=bounded tier=thorough bound="all strings of length 2 over the 11-byte class alphabet {a Z 7 _ . ( ) : @ - SP}" targets="FieldArgumentCoordinate::from_str" timeout=3000
 #[kani::proof]
 #[kani::unwind(5)]
 fn c23_field_argument_len2() { check_field_argument::<2>(); }
 
-// @verif prop=C23 class=bounded tier=quick bound="all strings of length 3 over the 11-byte class alphabet {a Z 7 _ . ( ) : @ - SP}" targets="FieldArgumentCoordinate::from_str" timeout=600
+// @verif prop=C23 class=bounded tier=thorough bound="all strings of length 3 over the 11-byte class alphabet {a Z 7 _ . ( ) : @ - SP}" targets="FieldArgumentCoordinate::from_str" timeout=3000
 #[kani::proof]
 #[kani::unwind(6)]
 fn c23_field_argument_len3() { check_field_argument::<3>(); }
@@ -302,7 +302,7 @@ fn c23_directive_argument_len1() { check_directive_argument::<1>(); }
 #[kani::unwind(5)]
 fn c23_directive_argument_len2() { check_directive_argument::<2>(); }
 
-// @verif prop=C23 class=bounded tier=quick bound="all strings of length 3 over the 11-byte class alphabet {a Z 7 _ . ( ) : @ - SP}" targets="DirectiveArgumentCoordinate::from_str" timeout=600
+// @verif prop=C23 class=bounded tier=thorough bound="all strings of length 3 over the 11-byte class alphabet {a Z 7 _ . ( ) : @ - SP}" targets="DirectiveArgumentCoordinate::from_str" timeout=3000
 #[kani::proof]
 #[kani::unwind(6)]
 fn c23_directive_argument_len3() { check_directive_argument::<3>(); }
@@ -332,17 +332,17 @@ fn c23_directive_argument_len7() { check_directive_argument::<7>(); }
 #[kani::unwind(3)]
 fn c23_schema_coordinate_len0() { check_schema_coordinate::<0>(); }
 
-// @verif prop=C23 class=bounded tier=quick bound="all strings of length 1 over the 11-byte class alphabet {a Z 7 _ . ( ) : @ - SP}" targets="SchemaCoordinate::from_str" timeout=600
+// @verif prop=C23 class=bounded tier=thorough bound="all strings of length 1 over the 11-byte class alphabet {a Z 7 _ . ( ) : @ - SP}" targets="SchemaCoordinate::from_str" timeout=3000
 #[kani::proof]
 #[kani::unwind(4)]
 fn c23_schema_coordinate_len1() { check_schema_coordinate::<1>(); }
 
-// @verif prop=C23 class=bounded tier=quick bound="all strings of length 2 over the 11-byte class alphabet {a Z 7 _ . ( ) : @ - SP}" targets="SchemaCoordinate::from_str" timeout=600
+// @verif prop=C23 class=bounded tier=thorough bound="all strings of length 2 over the 11-byte class alphabet {a Z 7 _ . ( ) : @ - SP}" targets="SchemaCoordinate::from_str" timeout=3000
 #[kani::proof]
 #[kani::unwind(5)]
 fn c23_schema_coordinate_len2() { check_schema_coordinate::<2>(); }
 
-// @verif prop=C23 class=bounded tier=quick bound="all strings of length 3 over the 11-byte class alphabet {a Z 7 _ . ( ) : @ - SP}" targets="SchemaCoordinate::from_str" timeout=600
+// @verif prop=C23 class=bounded tier=thorough bound="all strings of length 3 over the 11-byte class alphabet {a Z 7 _ . ( ) : @ - SP}" targets="SchemaCoordinate::from_str" timeout=3000
 #[kani::proof]
 #[kani::unwind(6)]
 fn c23_schema_coordinate_len3() { check_schema_coordinate::<3>(); }
